@@ -296,10 +296,44 @@ fn gen_resize_after_load(rng: &mut Rng, s: &StructDef) -> Vec<Op> {
     ops
 }
 
+/// "resize after the program was loaded": the exec stack is a stack too - once a non-empty program has been
+/// loaded, the global size (which is also the exec stack's) must not be changeable any more, whether or not
+/// any other stack holds values
+fn gen_resize_after_program(rng: &mut Rng, s: &StructDef) -> Vec<Op> {
+    let n = s.stacks.len();
+    let mut ops = vec![Op::MaxAll(3 + rng.below(6))];
+    if rng.chance(1, 3) {
+        ops.push(Op::MaxOne(rng.below(n), 3 + rng.below(5)));
+    }
+    ops.push(Op::Program(1 + rng.below(3)));
+    let mut steps = false;
+    for _ in 0..rng.below(3) {
+        match rng.below(3) {
+            0 if !steps => {
+                ops.push(Op::Steps(rng.below(30)));
+                steps = true;
+            }
+            1 => ops.push(Op::MaxOne(rng.below(n), 4 + rng.below(4))),
+            _ => {}
+        }
+    }
+    ops.push(Op::MaxAll(rng.below(9)));
+    if rng.chance(1, 2) {
+        if !steps {
+            ops.push(Op::Steps(rng.below(30)));
+        }
+        ops.push(Op::Build);
+    }
+    ops
+}
+
 /// random walk over builder calls, biased to produce every class
 fn gen_probe_chain(rng: &mut Rng, s: &StructDef) -> Vec<Op> {
     if rng.chance(1, 4) {
         return gen_resize_after_load(rng, s);
+    }
+    if rng.chance(1, 8) {
+        return gen_resize_after_program(rng, s);
     }
     let n = s.stacks.len();
     let mut ops = vec![];
